@@ -13,7 +13,7 @@ _RULE = ("histories of 20-60 (thorough: 20-110) abstract steps over 8 actors (2 
 
 _common = dict(
     driver="service",
-    coq_targets=["Service/Check.vo", "Service/Proofs.vo", "Service/ProofsHist.vo", "Service/ProofsEscrow.vo", "Service/ProofsSched.vo", "Service/ProofsBatch.vo", "Service/ProofsLiab.vo", "Service/ProofsTally.vo"],
+    coq_targets=["Service/Check.vo", "Service/Proofs.vo", "Service/ProofsHist.vo", "Service/ProofsEscrow.vo", "Service/ProofsSched.vo", "Service/ProofsBatch.vo", "Service/ProofsLiab.vo", "Service/ProofsTally.vo", "Service/ProofsLive.vo"],
     check_module="Service.Check",
     streams=[dict(name="main", quick=96, thorough=4000)],
     coq_shard=12,
